@@ -32,12 +32,14 @@ theorem QOk.tail {nbF f : Nat} {a : List Ext} {later : List (List Ext)} (h : QOk
 
 /-- The repeated prefix of a frame: separator, then the source region. -/
 theorem pre_steps {d : Array Nat} {nbF n f cur w p : Nat} {it : Iter} {pre : List Ext} {rest : List Nat}
-    (hs : St d nbF p cur it) (hcur : cur ≤ f) (hfresh : cur = f → it.repeatData = p ∧ it.lastLong = none)
+    (hs : St d nbF p cur it) (hcur : cur ≤ f)
+    (hfresh : cur = f → ∃ k, it.repeatData + k = p ∧ At d it.repeatData (List.replicate k 1) ∧ it.lastLong = none)
     (hne : pre ≠ []) (hv : ∀ e ∈ pre, ValidExt nbF e ∧ e.frame.toNat = f) (hw : w + pre.length < n)
     (hat : At d p (serW n cur w pre ++ rest)) (hend : p + (serW n cur w pre).length + rest.length = d.size) :
-    ∃ it' T, Steps d it it' (pre.map normExt) ∧
-      St d nbF (p + (serW n cur w pre).length) f it' ∧
-      Reg it' (p + (sepBytes f cur).length) (regLL (p + (sepBytes f cur).length) none pre) T ∧
+    ∃ it' T k', Steps d it it' (pre.map normExt) ∧
+      St d nbF (p + (serW n cur w pre).length) f it' ∧ k' ≤ p + (sepBytes f cur).length ∧
+      At d (p + (sepBytes f cur).length - k') (List.replicate k' 1) ∧
+      Reg it' (p + (sepBytes f cur).length - k') (regLL (p + (sepBytes f cur).length) none pre) T ∧
       (∀ k, lastLongPos pre = some k → T = ((pre.drop (k + 1)).map (fun a => a.len)).sum) ∧
       At d (p + (sepBytes f cur).length) (srcBytes pre) ∧
       p + (serW n cur w pre).length = p + (sepBytes f cur).length + (srcBytes pre).length := by
@@ -55,23 +57,26 @@ theorem pre_steps {d : Array Nat} {nbF n f cur w p : Nat} {it : Iter} {pre : Lis
       (rest := srcBytes as ++ rest) hs ⟨rfl, rfl, rfl⟩ hva (by omega)
       (by rw [haf]; simpa [List.append_assoc] using hat) (by rw [haf]; simp only [List.length_append]; omega) (by intro h; cases h)
     rw [haf] at hst1 hr1
-    -- the region starts right after the separator
-    have hreg1 : Reg it1 (p + (sepBytes f cur).length)
+    -- the region starts right after the separator (or, without separator, at `repeat_data`, before padding bytes)
+    have hreg1 : ∃ k', k' ≤ p + (sepBytes f cur).length ∧ At d (p + (sepBytes f cur).length - k') (List.replicate k' 1) ∧
+        Reg it1 (p + (sepBytes f cur).length - k')
         (regLL (p + (sepBytes f cur).length) none [a])
         (if a.id < 32 then (if f = cur then it.tsl else 0) + a.len else 0) := by
       obtain ⟨q1, q2, q3⟩ := hr1
       by_cases hfc : f = cur
       · have hs0 : (sepBytes f cur).length = 0 := by simp [sepBytes, hfc]
-        have hfr := hfresh hfc.symm
-        refine ⟨?_, ?_, q3⟩
-        · rw [q1, if_pos hfc, hfr.1, hs0]; rfl
-        · rw [q2]; simp only [regLL, if_pos hfc, hfr.2]
-      · refine ⟨?_, ?_, q3⟩
-        · rw [q1, if_neg hfc]
+        obtain ⟨k, hk1, hk2, hk3⟩ := hfresh hfc.symm
+        refine ⟨k, by omega, ?_, ?_, ?_, q3⟩
+        · rw [hs0, show p + 0 - k = it.repeatData by omega]; exact hk2
+        · rw [q1, if_pos hfc, hs0]; omega
+        · rw [q2]; simp only [regLL, if_pos hfc, hk3]
+      · refine ⟨0, Nat.zero_le _, by intro i hi; simp at hi, ?_, ?_, q3⟩
+        · rw [q1, if_neg hfc]; rfl
         · rw [q2]; simp only [regLL, if_neg hfc]
+    obtain ⟨k', hk'1, hk'2, hreg1⟩ := hreg1
     obtain ⟨it2, hs2, hst2, hr2⟩ := src_steps (rest := rest) as _ _ _ it1 hst1 hreg1
       (fun x hx => hv x (List.mem_cons_of_mem _ hx)) ((hat.append).2.append).2 (by omega)
-    refine ⟨it2, regT (if a.id < 32 then (if f = cur then it.tsl else 0) + a.len else 0) as, ?_, ?_, ?_, ?_, ?_, by omega⟩
+    refine ⟨it2, regT (if a.id < 32 then (if f = cur then it.tsl else 0) + a.len else 0) as, k', ?_, ?_, hk'1, hk'2, ?_, ?_, ?_, by omega⟩
     · have := hs1.trans hs2; simpa using this
     · have e : p + ((sepBytes f cur).length + ((extBytes a false).length + (srcBytes as).length)) =
           p + (sepBytes f cur).length + (extBytes a false).length + (srcBytes as).length := by omega
@@ -94,7 +99,8 @@ theorem blockR_pos {a : List Ext} {later : List (List Ext)} (h : 0 < blockR a la
 /-- Iterating over everything the generator writes for the queues `rems` reports `expAll rems`. -/
 theorem serAll_steps {d : Array Nat} {nbF n : Nat} : ∀ (m : Nat) (rems : List (List Ext)) (f cur w p : Nat) (it : Iter),
     rems.length = m → QOk nbF f rems → w + total rems = n → cur ≤ f →
-    St d nbF p cur it → (cur = f → it.repeatData = p ∧ it.lastLong = none) →
+    St d nbF p cur it →
+    (cur = f → ∃ k, it.repeatData + k = p ∧ At d it.repeatData (List.replicate k 1) ∧ it.lastLong = none) →
     At d p (serAll n rems cur w) → p + (serAll n rems cur w).length = d.size →
     ∃ it' cur', Steps d it it' ((expAll rems).map normExt) ∧ St d nbF d.size cur' it' := by
   intro m
@@ -184,7 +190,7 @@ theorem serAll_steps {d : Array Nat} {nbF n : Nat} : ∀ (m : Nat) (rems : List 
         have hcur1 : curAfter cur (a.take R) = f := by
           unfold curAfter; rw [lastFrame_same _ cur (fun e he => (hpre_v e he).2)]; simp [hpre_ne]
         rw [hcur1] at hat hend
-        obtain ⟨it1, T, hs1, hst1, hreg1, hT1, hsrc1, hp1⟩ := pre_steps (n := n) (w := w) hs hcur hfresh hpre_ne hpre_v (by omega) hat
+        obtain ⟨it1, T, k', hs1, hst1, hk'1, hones1, hreg1, hT1, hsrc1, hp1⟩ := pre_steps (n := n) (w := w) hs hcur hfresh hpre_ne hpre_v (by omega) hat
           (by simp only [List.length_append, List.length_cons, List.length_nil]; omega)
         -- 2. the indicator
         have hat2 := (hat.append).2
@@ -192,8 +198,9 @@ theorem serAll_steps {d : Array Nat} {nbF n : Nat} : ∀ (m : Nat) (rems : List 
         obtain ⟨it2, hs2, hR2⟩ := rep_start (b := if last = true then 4 else 5) hst1 hreg1 hb (by split <;> rfl) (by omega) hf1 (by omega)
         have hL : (if last = true then 4 else 5) % 2 = if last = true then 0 else 1 := by split <;> rfl
         rw [hL] at hR2
-        have hplen : p + (serW n cur w (a.take R)).length - (p + (sepBytes f cur).length) = (srcBytes (a.take R)).length := by omega
+        have hplen : p + (serW n cur w (a.take R)).length - (p + (sepBytes f cur).length - k') = k' + (srcBytes (a.take R)).length := by omega
         rw [hplen] at hR2
+        have hpk : p + (sepBytes f cur).length - k' + k' = p + (sepBytes f cur).length := by omega
         -- 3. the repeated payloads of all later frames
         have hat3 := (At.head hat2).2
         have hZ : ZOk (if last = true then 0 else 1) (nbF - 1) nbF (regLL (p + (sepBytes f cur).length) none (a.take R))
@@ -212,14 +219,14 @@ theorem serAll_steps {d : Array Nat} {nbF n : Nat} : ∀ (m : Nat) (rems : List 
         obtain ⟨it3, hs3, hst3, hreg3⟩ := rep_outer (rest := serW n (if last = true then f + 1 else f) (w + R + R * later.length) (a.drop R) ++
             serAll n (later.map (List.drop R)) (curAfter (if last = true then f + 1 else f) (a.drop R))
               (w + R + R * later.length + (a.drop R).length))
-          (R := R) (last := last) hf1 (fun x hx => (hpre_v x hx).1) hsrc1 later (f + 1) _ it2
+          (R := R) (last := last) (k := k') hf1 (fun x hx => (hpre_v x hx).1) hones1 (by rw [hpk]; exact hsrc1) later (f + 1) _ it2
           (by simp at hq1; omega) (by omega) hR2
           (fun i r hi => by
             have hmem : r ∈ later := List.mem_of_getElem? hi
             refine ⟨(hRl r hmem).2, fun x hx => ?_⟩
             have := hq2 (i + 1) r (by simpa using hi) x (List.mem_of_mem_take hx)
             exact ⟨this.1, by rw [this.2]; omega⟩)
-          hZ
+          (by rw [hpk]; exact hZ)
           (fun r hr => by
             apply TOk_of_closed
             intro j hz hj
@@ -258,7 +265,7 @@ theorem serAll_steps {d : Array Nat} {nbF n : Nat} : ∀ (m : Nat) (rems : List 
           obtain ⟨it4, cur4, hs4, hst4⟩ := ih (later.map (List.drop R)) (f + 1) (if last = true then f + 1 else f)
             (w + R + R * later.length) _ it3 (by simpa using hlen') hqt (by rw [hpost] at hlen_post; simp at hlen_post; omega)
             (by split <;> omega) hst3
-            (fun h => ⟨hreg3.1, hreg3.2.1⟩) hat4 (by omega)
+            (fun h => ⟨0, by rw [hreg3.1]; rfl, by intro i hi; simp at hi, hreg3.2.1⟩) hat4 (by omega)
           refine ⟨it4, cur4, ?_, hst4⟩
           have := ((hs1.trans hs2).trans hs3).trans hs4
           simpa using this
